@@ -9,6 +9,8 @@ import (
 	"github.com/pip-services3-gox/pip-services3-expressions-gox/calculator/functions"
 	"github.com/pip-services3-gox/pip-services3-expressions-gox/calculator/parsers"
 	"github.com/pip-services3-gox/pip-services3-expressions-gox/calculator/variables"
+	"github.com/pip-services3-gox/pip-services3-expressions-gox/mustache"
+	mparsers "github.com/pip-services3-gox/pip-services3-expressions-gox/mustache/parsers"
 	"github.com/pip-services3-gox/pip-services3-expressions-gox/variants"
 
 	"verifharness/model"
@@ -479,7 +481,77 @@ func buildC18(cfg *mon.Config) []*mon.Sub {
 		},
 	}
 	depth := cfg.N(5, 6)
-	var subs = []*mon.Sub{exprs, resolve}
+	tmpl := &mon.Sub{
+		Name:  "template-variable-discovery",
+		Rule:  "seeded template trees (C10 generator: names in random letter case, sections in every spelling incl. the section words if/unless, comments that mention names, text that mentions names); oracle: the parser's VariableNames() are the variable and section names in order of first occurrence merged case-insensitively - never if/unless, comment or text words; after SetTemplate on a template pre-loaded with two valued default variables the map keeps them and holds exactly one entry per discovered name compared case-insensitively; non-trivial = at least two names",
+		Floor: 500,
+		Gen: func(emit func(string)) {
+			r := cfg.Rng("c18-tmpl")
+			g := &tmplGen{r: r}
+			for i := 0; i < cfg.N(4000, 150000); i++ {
+				nodes := sanitizeTemplate(g.nodes(1+r.Intn(3), 2+r.Intn(7)))
+				if len(nodes) == 0 || commentHasQuote(nodes) {
+					continue
+				}
+				emit(encTmpl(nodes, nil))
+			}
+		},
+		Exec: func(c *mon.Case) {
+			nodes, _ := decTmpl(c.Payload)
+			src := model.PrintTemplate(nodes)
+			want := model.TemplateNames(nodes)
+			p := mparsers.NewMustacheParser()
+			var err error
+			if pn := mon.Try(func() { err = p.ParseString(src) }); pn != nil || err != nil {
+				c.Count("rejected or panicked (C10's business)")
+				return
+			}
+			var got []string
+			seen := map[string]bool{}
+			for _, n := range p.VariableNames() {
+				l := strings.ToLower(n)
+				if seen[l] {
+					c.Failf("a template variable name is reported twice", "template=%q names=%q", src, p.VariableNames())
+					return
+				}
+				seen[l] = true
+				got = append(got, l)
+			}
+			if strings.Join(got, "\x01") != strings.Join(want, "\x01") {
+				c.Failf("reported template variable names are not the variable and section names in order of first occurrence", "template=%q\nwant %q\ngot  %q", src, want, p.VariableNames())
+				return
+			}
+			t := mustache.NewMustacheTemplate()
+			t.SetDefaultVariables(map[string]string{"KEEP": "1", "ITEM": "2"})
+			if pn := mon.Try(func() { err = t.SetTemplate(src) }); pn != nil || err != nil {
+				c.Failf("template rejects what its parser accepts", "template=%q: %v %v", src, pn, err)
+				return
+			}
+			dv := t.DefaultVariables()
+			wantKeys := map[string]bool{"keep": true, "item": true}
+			for _, n := range want {
+				wantKeys[n] = true
+			}
+			gotKeys := map[string]int{}
+			for k := range dv {
+				gotKeys[strings.ToLower(k)]++
+			}
+			if dv["KEEP"] != "1" || dv["ITEM"] != "2" || len(dv) != len(wantKeys) {
+				c.Failf("automatic template variables do not end up with exactly one entry per name, keeping earlier entries", "template=%q default variables=%q want keys %v", src, dv, wantKeys)
+				return
+			}
+			for k := range wantKeys {
+				if gotKeys[k] != 1 {
+					c.Failf("automatic template variables do not end up with exactly one entry per name, keeping earlier entries", "template=%q default variables=%q want keys %v", src, dv, wantKeys)
+					return
+				}
+			}
+			if len(want) >= 2 {
+				c.NonTrivial()
+			}
+		},
+	}
+	var subs = []*mon.Sub{exprs, resolve, tmpl}
 	for _, kind := range []string{"variables", "functions"} {
 		kind := kind
 		subs = append(subs, &mon.Sub{
